@@ -10,7 +10,7 @@
     queries D K…                per hop i: "<i>/<hex spec digest>/<hex sig>/<spki>,<spki>…" for the keys
                                 found by searchBySki in table order (what the verify oracle must answer)
     validate D K… O <mode> <o_0> … <o_{n-1}>
-                                mode = ski | skias ; o_i = one letter v/n/e per key of hop i ("-" = none):
+                                mode = ski | skias | ski+stop | skias+stop (key selection, loop bound); o_i = one letter v/n/e per key of hop i ("-" = none):
                                 the result of the uninterpreted `verify` for (key, spec digest i, sig i);
                                 the model hashes with `hash := id`, so a query on any other byte
                                 string than the spec digest is answered `e`
@@ -188,15 +188,18 @@ def step (_ : Unit) (line : String) : Unit × String :=
     match parseData rest with
     | some (d, rest) => match parseTable rest with
       | some (T, "O" :: mode :: outs) =>
-        let m? : Option KeyMode := if mode = "ski" then some .skiOnly else if mode = "skias" then some .skiAndAs else none
+        let m? : Option (KeyMode × Bool) :=
+          if mode = "ski" then some (.skiOnly, false) else if mode = "skias" then some (.skiAndAs, false)
+          else if mode = "ski+stop" then some (.skiOnly, true) else if mode = "skias+stop" then some (.skiAndAs, true)
+          else none
         match m? with
         | none => bad
-        | some m =>
+        | some (m, stop) =>
           -- shapes the oracle cannot be laid out for are decided before any verification anyway
           if d.sigs.length ≠ d.path.length ∨ d.sigs = [] ∨ d.alg ≠ 1 ∨ (d.nlri.afi ≠ 1 ∧ d.nlri.afi ≠ 2) then
-            ((), (validate (H := List Nat) id (fun _ _ _ => VRes.error) m d T).name)
+            ((), (validate (H := List Nat) id (fun _ _ _ => VRes.error) m stop d T).name)
           else match buildOracle d T outs with
-            | some o => ((), (validate (H := List Nat) id (oracleVerify o) m d T).name)
+            | some o => ((), (validate (H := List Nat) id (oracleVerify o) m stop d T).name)
             | none => bad
       | _ => bad
     | none => bad
